@@ -1319,50 +1319,22 @@ where
                 }
             }
             TrieStorage::DoubleArray { base, check, .. } => {
-                // For DoubleArray, enumerate all possible transitions from this state
-                if let Some(&base_val) = base.get(state as usize) {
-                    if base_val == 0 {
-                        return Box::new(std::iter::empty());
-                    }
-
-                    const STATE_MASK: u32 = 0x3FFF_FFFF;
-                    let state_copy = state;
-                    let base_clone = base.clone();
-                    let check_clone = check.clone();
-
-                    Box::new((0u8..=255u8).filter_map(move |symbol| {
-                        let next_state = base_val.saturating_add(symbol as u32);
-                        if (next_state as usize) < check_clone.len() {
-                            let check_val = check_clone[next_state as usize];
-                            const TERMINAL_FLAG: u32 = 0x4000_0000;
-
-                            // Check value must match the parent state
-                            // CRITICAL: For root (state 0), we must distinguish between:
-                            // - Uninitialized slots (check = 0, never written)
-                            // - Actual children of root (check = 0, explicitly set)
-                            let is_valid_child = if state_copy == 0 {
-                                // For root, a child is valid if check == 0 AND it has been initialized
-                                // We know it's initialized if it has the TERMINAL_FLAG or has children (base != 0)
-                                (check_val & STATE_MASK) == 0 && (
-                                    (check_val & TERMINAL_FLAG) != 0 ||
-                                    ((next_state as usize) < base_clone.len() && base_clone[next_state as usize] != 0)
-                                )
-                            } else {
-                                // For non-root states, check must be non-zero and match parent
-                                check_val != 0 && (check_val & STATE_MASK) == state_copy
-                            };
-
-                            if is_valid_child {
-                                Some((symbol, next_state))
-                            } else {
-                                None
+                // Same arithmetic as `transition`: the child on `symbol` is
+                // (base[state] & VALUE_MASK) + symbol, and it is a child iff check[child] == state
+                // (bit 31 of base is the terminal bit, a free slot holds 0xFFFF_FFFF in check)
+                const VALUE_MASK: u32 = 0x7FFF_FFFF;
+                match base.get(state as usize) {
+                    Some(&base_raw) => {
+                        let base_value = base_raw & VALUE_MASK;
+                        Box::new((0u8..=255u8).filter_map(move |symbol| {
+                            let next_state = base_value.saturating_add(symbol as u32);
+                            match check.get(next_state as usize) {
+                                Some(&check_value) if check_value == state => Some((symbol, next_state)),
+                                _ => None,
                             }
-                        } else {
-                            None
-                        }
-                    }))
-                } else {
-                    Box::new(std::iter::empty())
+                        }))
+                    }
+                    None => Box::new(std::iter::empty()),
                 }
             }
             _ => {
